@@ -12,6 +12,37 @@ class Boom(Exception):
         self.at = at
 
 
+# the same injected failure under the standard exception types that library code likes to catch for its own purposes
+# (a retry on TypeError, "short row" on IndexError, "no such field" on KeyError, cleanup on OSError ...); all are Boom
+class BoomTypeError(Boom, TypeError):
+    pass
+
+
+class BoomValueError(Boom, ValueError):
+    pass
+
+
+class BoomKeyError(Boom, KeyError):
+    pass
+
+
+class BoomIndexError(Boom, IndexError):
+    pass
+
+
+class BoomAttributeError(Boom, AttributeError):
+    pass
+
+
+class BoomOSError(Boom, OSError):
+    pass
+
+
+BOOMS = {"plain": Boom, "type": BoomTypeError, "value": BoomValueError, "key": BoomKeyError, "index": BoomIndexError,
+         "attribute": BoomAttributeError, "os": BoomOSError}
+BOOM_KINDS = sorted(BOOMS)
+
+
 class Counting(etl.Table):
     """A table over a list of rows that counts header pulls and data-row pulls, per iterator
     and in total.  `rows` may be edited between passes (histories of C11)."""
@@ -23,6 +54,7 @@ class Counting(etl.Table):
         self.iterators = 0
         self.exhausted = 0
         self.fail_at = None   # when set: raise Boom instead of yielding data row number fail_at (0-based)
+        self.fail_kind = "plain"
 
     def __iter__(self):
         self.iterators += 1
@@ -34,7 +66,7 @@ class Counting(etl.Table):
                 self.header_pulls += 1
             else:
                 if self.fail_at is not None and i - 1 == self.fail_at:
-                    raise Boom(("data-row", self.fail_at))
+                    raise BOOMS[self.fail_kind](("data-row", self.fail_at))
                 self.data_pulls += 1
             yield r
         self.exhausted += 1
@@ -47,9 +79,10 @@ class Failing(etl.Table):
     """Yields rows[0..at-1] then raises Boom(at).  at == len(rows) raises at exhaustion;
     at > len(rows) or None never raises."""
 
-    def __init__(self, rows, at):
+    def __init__(self, rows, at, kind="plain"):
         self.rows = rows
         self.at = at
+        self.kind = kind
 
     def __iter__(self):
         return self._gen()
@@ -57,10 +90,10 @@ class Failing(etl.Table):
     def _gen(self):
         for i, r in enumerate(self.rows):
             if self.at is not None and i == self.at:
-                raise Boom(i)
+                raise BOOMS[self.kind](i)
             yield r
         if self.at is not None and self.at == len(self.rows):
-            raise Boom(self.at)
+            raise BOOMS[self.kind](self.at)
 
 
 class _CountingFile(object):
